@@ -159,6 +159,55 @@ def structured_blocks(n):
     return out
 
 
+def forced_blocks(n, level):
+    """Layouts that *force* two stars onto touching cells (k = 2): rows as blocks, except that one block is a domino
+    (horizontal: the rest of its row joins the neighbouring row; vertical: columns as blocks instead) or an L-tromino
+    whose three cells pairwise touch (the rests of its two rows form one block).  No placement obeys the rules, so a
+    solver that misses the no-touch rule at that very spot (and only there) reports a solution."""
+    out = []
+
+    def finish(ids):
+        cells = {}
+        for y in range(n):
+            for x in range(n):
+                cells.setdefault(ids[y][x], []).append((y, x))
+        if len(cells) != n or any(not base.cells_connected(c) for c in cells.values()):
+            return
+        names = {b: i for i, b in enumerate(sorted(cells, key=lambda b: min(cells[b])))}
+        blk = [[names[ids[y][x]] for x in range(n)] for y in range(n)]
+        if blk not in out:
+            out.append(blk)
+
+    spots = [(y, x) for y in range(n) for x in range(n)]
+    if level == 0:
+        keep = set([0, 1, n // 2, n - 2, n - 1])
+        spots = [(y, x) for (y, x) in spots if y in keep and x in keep]
+    for (y, x) in spots:
+        if x + 1 < n:  # horizontal domino in row y
+            for nb in (y - 1, y + 1):
+                if 0 <= nb < n:
+                    ids = [[("r", yy if yy != y else nb)] * n for yy in range(n)]
+                    ids = [list(r) for r in ids]
+                    ids[y][x] = ids[y][x + 1] = ("d",)
+                    finish(ids)
+        if y + 1 < n:  # vertical domino in column x
+            for nb in (x - 1, x + 1):
+                if 0 <= nb < n:
+                    ids = [[("c", xx if xx != x else nb) for xx in range(n)] for _ in range(n)]
+                    ids[y][x] = ids[y + 1][x] = ("d",)
+                    finish(ids)
+        if y + 1 < n and x + 1 < n:  # L-trominoes inside the 2x2 square at (y, x): any two of their cells touch
+            for missing in ((0, 0), (0, 1), (1, 0), (1, 1)):
+                ids = [[("r", yy if yy not in (y, y + 1) else y)] * n for yy in range(n)]
+                ids = [list(r) for r in ids]
+                for dy in (0, 1):
+                    for dx in (0, 1):
+                        if (dy, dx) != missing:
+                            ids[y + dy][x + dx] = ("t",)
+                finish(ids)
+    return out
+
+
 class StarBattle(base.Rule):
     name = "star_battle"
 
@@ -167,13 +216,18 @@ class StarBattle(base.Rule):
         # larger boards with a few structured block layouts (the first k=2 boards with any placement are 7x7 / 8x8)
         big = [(5, 1, "structured", 0), (6, 1, "structured", 0), (7, 2, "structured", 0), (8, 2, "structured", 0)]
         if tier == "quick":
-            return s + [(4, 1, 0, 251), (4, 2, 0, 251)] + big
+            return s + [(4, 1, 0, 251), (4, 2, 0, 251)] + big + [(9, 2, "forced", 0), (8, 2, "forced", 0)]
+        big = big + [(8, 2, "forced", 1), (9, 2, "forced", 1)]
         return s + [(4, 1, r, 6) for r in range(6)] + [(4, 2, 0, 6)] + big + [(9, 2, "structured", 0), (10, 2, "structured", 0), (7, 1, "structured", 0)]
 
     def instances(self, shape, cap):
         n, k, r, m = shape
         if r == "structured":
             for blocks in structured_blocks(n):
+                yield {"n": n, "blocks": blocks, "k": k}
+            return
+        if r == "forced":
+            for blocks in forced_blocks(n, m):
                 yield {"n": n, "blocks": blocks, "k": k}
             return
         count = 0
